@@ -7,7 +7,8 @@ import threading
 
 ID = 'C19'
 LEVEL = 'other'
-TARGETS = []
+TARGETS = ['selfies/grammar_rules.py::process_atom_symbol',
+           'selfies/grammar_rules.py::_process_atom_selfies_no_cache']
 EXPLANATION = (
     "Contracts cannot quantify over schedules; what is machine-checked is the sequential side condition (G) of a "
     "rely/guarantee argument plus a bounded stress run. (G), re-derived from /repo's source on every run: every "
